@@ -465,6 +465,8 @@ class SoftwareSwitchBase (object):
       err.xid = 0
     if data is not None:
       err.data = data
+    # The whole error message has to fit into 65535 bytes
+    err.data = err.data[:0xffff - 12]
     self.send(err, connection = connection)
 
   def rx_packet (self, packet, in_port, packet_data = None):
